@@ -197,7 +197,7 @@ def _find(arch, path):
     raise Mismatch("archive holds no trajectory for %s (members %s)" % (path, sorted(arch["trajs"])), observed="archive_members")
 
 
-def run_cli_case(case, app="ape", extra_argv=()):
+def prepare_cli_case(case):
     d = tempfile.mkdtemp(prefix="cli_", dir=os.getcwd())
     fmt = case["fmt"]
     c = dict(case)
@@ -211,14 +211,46 @@ def run_cli_case(case, app="ape", extra_argv=()):
         ns = [int(round(t * 1e9)) for t in ref[0]]
         ref = (np.array([float(v) for v in ns]) / 1e9, ref[1], ref[2])
     cfg = pipeline.write_cfg(d)
-    out_zip = os.path.join(d, "out.zip")
+    return c, d, ref, est, files, cfg
+
+
+def run_cli_case(case, app="ape", extra_argv=(), prepared=None, tag=""):
+    c, d, ref, est, files, cfg = prepared or prepare_cli_case(case)
+    if prepared is not None:
+        # a further run on the same files (same process): only the options differ; the files were written for the
+        # first run's time offset, so that stays
+        c = dict(c, opts=dict(case["opts"], t_offset=c["opts"].get("t_offset", 0.0)))
+        if c["fmt"] == "kitti":
+            c["opts"]["t_offset"] = 0.0
+    out_zip = os.path.join(d, "out%s.zip" % tag)
     argv = pipeline.base_argv(c, files, out_zip, cfg) + list(extra_argv)
     out = cli.run(app, argv, cwd=d)
     return c, d, ref, est, files, out, out_zip
 
 
 def sub_cli(case):
-    c, d, ref, est, files, out, out_zip = run_cli_case(case)
+    prepared = prepare_cli_case(case)
+    label = _check_cli_run(run_cli_case(case, prepared=prepared, tag="0"), "")
+    for k, again in enumerate(case.get("again") or []):
+        # the same files evaluated again in the same process with other options: every run is judged on its own
+        c2 = {"fmt": case["fmt"], "data": case["data"], "opts": again}
+        _check_cli_run(run_cli_case(c2, prepared=prepared, tag=str(k + 1)), "run %d on the same files: " % (k + 2))
+        label = str(label) + "+again"
+    return label
+
+
+def _check_cli_run(run, prefix):
+    try:
+        return _check_cli_run_inner(run)
+    except Mismatch as m:
+        if prefix:
+            m.msg = prefix + m.msg
+            m.args = (m.msg,) + tuple(m.args[1:])
+        raise
+
+
+def _check_cli_run_inner(run):
+    c, d, ref, est, files, out, out_zip = run
     o = c["opts"]
     fmt = c["fmt"]
     exp = pipeline.process_reference(c, fmt, ref, est)
@@ -308,12 +340,25 @@ st_data = st.fixed_dictionaries({
     "seed": st.integers(0, 2 ** 32), "step": st.sampled_from([0.01, 0.5, 20.0]), "off": st.integers(0, 2), "still": st.sampled_from([0.0, 0.3]),
     "axis": st.lists(gen.unit_f, min_size=3, max_size=3), "keep": st.sampled_from([1.0, 0.8, 0.5]), "jitter": st.sampled_from([0.0, 0.001, 0.004]),
     "scale": st.sampled_from([1.0, 1.0, 0.5, 7.25]), "noise": st.sampled_from([0.0, 0.01, 0.5]), "est_dense": st.sampled_from([False, False, True])})
-st_cli = st.builds(
-    _mk_cli_case, st.sampled_from(["tum", "tum", "euroc", "kitti"]), st_data, st.sampled_from(sorted(pipeline.REL_CLI)),
+_st_cli_opts = (
+    st.sampled_from(sorted(pipeline.REL_CLI)),
     st.sampled_from(["none", "align", "origin"]), st.booleans(), st.sampled_from([-1, -1, 3, 5, 10]), st.sampled_from([None, None, 3, 10, 1000, "n", "n+2"]),
     st.sampled_from([None, None, [0.1, 5.0], [1.0, 0.5], [0.0, 0.0]]), st.sampled_from([0.01, 0.01, 0.005, 0.02]),
     st.sampled_from([0.0, 0.0, 0.5, -2.25]), st.one_of(st.none(), st.tuples(st.integers(0, 40), st.integers(0, 40), st.booleans(), st.booleans())),
     st.sampled_from([None, None, "xy", "xz", "yz"]), st.sampled_from([None, None, "mm", "cm", "km"]))
 
-SUBS.append(Sub("cli", sub_cli, st_cli, 800, 30000, nontrivial=lambda c: any(c["opts"].get(k) for k in (
+
+@st.composite
+def st_cli(draw):
+    fmt = draw(st.sampled_from(["tum", "tum", "euroc", "kitti"]))
+    data = draw(st_data)
+    case = _mk_cli_case(fmt, data, *[draw(x) for x in _st_cli_opts])
+    # one case in four evaluates the same files again (same process) with other options
+    k = draw(st.sampled_from([0, 0, 0, 1, 2])) if draw(st.booleans()) else 0
+    if k:
+        case["again"] = [_mk_cli_case(fmt, data, *[draw(x) for x in _st_cli_opts])["opts"] for _ in range(k)]
+    return case
+
+
+SUBS.append(Sub("cli", sub_cli, st_cli(), 800, 30000, nontrivial=lambda c: any(c["opts"].get(k) for k in (
     "align", "correct_scale", "align_origin", "downsample", "motion_filter", "t_start", "t_end", "project", "change_unit", "t_offset")), shards_quick=8))
